@@ -37,7 +37,7 @@ SCHEMA = oalprog.SCHEMA
 def populations(draw):
     pop = []
     for cls in oalprog.CLASSES:
-        for _ in range(draw(st.integers(0, 3))):
+        for _ in range(draw(st.integers(1, 4))):
             vals = {}
             for an, at in oalprog.ATTRS[cls]:
                 if draw(st.booleans()):
@@ -45,7 +45,7 @@ def populations(draw):
                                      'bool': st.booleans(), 'real': st.sampled_from([0.5, 1.5, -2.0])}[at])
             pop.append([cls, vals])
     links = draw(st.lists(st.tuples(st.integers(0, len(SCHEMA['assocs']) - 1), st.integers(0, 5), st.integers(0, 5)),
-                          max_size=10))
+                          min_size=10, max_size=40))
     return {'rows': pop, 'links': [list(l) for l in links]}
 
 
@@ -225,7 +225,7 @@ def run(ctx):
         except Exception as e:
             raise Violation('harness-exception:' + exc_bucket(e), case, repr(e))
 
-    hyp_run(ctx, res, cases(ctx.pick(12, 40), ctx.pick(3, 5)), body, ctx.pick(1500, 6000), label='programs')
+    hyp_run(ctx, res, cases(ctx.pick(12, 40), ctx.pick(3, 5)), body, ctx.pick(2500, 8000), label='programs')
     total = res.evaluations + sum(res.discarded.values())
     if total and sum(res.discarded.values()) > 0.4 * total:
         from .build import HarnessError
